@@ -53,8 +53,18 @@ def archive(home, pair):
         return False, {}
 
 
+def _dir_then_file(x, y, name):
+    """a path that was a common file is deleted on both sides and becomes a DIRECTORY on one; after a run the directory
+    goes away again and one side re-creates the file with its old bytes: a creation, not the echo of a delete"""
+    return [("put", x, name, 1), ("put", y, name, 1), ("run",), ("rm", x, name), ("rm", y, name), ("mkdir", x, name, 2), ("run",),
+            ("rmtree", x, name), ("rmtree", y, name), ("put", x, name, 1), ("run",), ("run",)]
+
+
+SCRIPTS = [_dir_then_file("A", "B", "p"), _dir_then_file("B", "A", "d/r"), _dir_then_file("A", "B", "sp ace")]
+
+
 def run_history(job):
-    seed, length, hexes = job
+    seed, length, hexes = job[0], job[1], job[2]
     rng = random.Random(seed)
     d = CFG["dir"]
     shutil.rmtree(d, ignore_errors=True)
@@ -90,9 +100,30 @@ def run_history(job):
         except OSError:
             pass
 
-    for step in range(length):
+    script = job[3] if len(job) > 3 else None
+    for step in range(len(script) if script else length):
         r = rng.random()
         side = rng.choice([A, B])
+        if script:
+            op = script[step]
+            sd = A if len(op) > 1 and op[1] == "A" else B
+            if op[0] == "put":
+                put(sd, op[2], op[3])
+                continue
+            if op[0] == "rm":
+                try:
+                    os.unlink(os.path.join(sd, op[2]))
+                except OSError:
+                    pass
+                continue
+            if op[0] == "mkdir":
+                os.makedirs(os.path.join(sd, op[2]), exist_ok=True)
+                put(sd, op[2] + "/inner", op[3])
+                continue
+            if op[0] == "rmtree":
+                shutil.rmtree(os.path.join(sd, op[2]), ignore_errors=True)
+                continue
+            r = 1.0                                   # ("run",): the last branch below
         if r < 0.40:
             put(side, rng.choice(bases), rng.choice(cids))
         elif r < 0.52:
